@@ -148,3 +148,13 @@ package sortints
 //@   ensures sorted(*s)
 //@   ensures forall k in 0..len(*s): (*s)[k] != x && in((*s)[k], old(*s))
 //@   ensures forall p in 0..len(old(*s)): old(*s)[p] != x ==> in(old(*s)[p], *s)
+
+// Add: the set equation; ASSUMED for now (opt assumed) where it is used by the
+// sparse graph operations; it is proved separately when listed as a unit of C17.
+//@ func (*SortedInts).Add
+//@   requires sorted(*s)
+//@   modifies s
+//@   ensures sorted(*s) && fresh(*s)
+//@   ensures forall k in 0..len(*s): in((*s)[k], old(*s)) || in((*s)[k], x)
+//@   ensures subset(old(*s), *s) && subset(x, *s)
+//@   opt assumed
